@@ -117,6 +117,15 @@ def run_check(modname, tier='quick', seed=0):
             cr = pool.map_async(_canary_one, canary_jobs) if canary_jobs else None
             results = ar.get() if ar else []
             canaries = cr.get() if cr else []
+    # a canary is caught when at least one variant (typed case) of the function catches it
+    cg = {}
+    for c in canaries:
+        k = (c['function'], c['mutation'])
+        g = cg.setdefault(k, dict(function=c['function'], mutation=c['mutation'], caught=False, by=[]))
+        if c['caught']:
+            g['caught'] = True
+            g['by'] = g['by'] or c['by']
+    canaries = list(cg.values())
     extra = []
     if hasattr(mod, 'extra_obligations'):
         extra = mod.extra_obligations(tier)
